@@ -305,6 +305,8 @@ def run(tier, seed, replay=None):
     quiet_logging()
     chk = Check("C02", tier, seed)
     rng = random.Random(seed)
+    if replay:
+        return do_replay(chk, replay)
     model_check(chk, tier)
 
     traces, meta = [], {}
@@ -365,4 +367,27 @@ def run(tier, seed, replay=None):
         "each future is yielded by at most one process (API rule)",
         "same-instant order of resolver events is their creation order (C01)",
     ]
+    return chk.finish()
+
+
+def do_replay(chk, path):
+    """Re-execute a saved program on the real engine and judge it again with ProcessTrace.tla."""
+    import json
+    data = json.loads(open(path).read())["replay"]
+    t, m = data["trace"], data.get("meta", {})
+    prog = {k: t[k] for k in ("nf", "start", "res", "comps", "script")}
+    w, err = run_real(prog, m.get("tick_ns", 1000), random.Random(1) if m.get("yield_from") else None)
+    tr = to_trace(1, prog, w)
+    verdicts, results = validate([tr], [], "C02_replay")
+    for r in results:
+        chk.add_tlc("ProcessTrace replay", r)
+    chk.impl_traces = 1
+    v = verdicts[1]
+    if err:
+        chk.violation(f"exception:{err.split(':')[0]}", f"real engine raised {err}", {"meta": m, "trace": tr})
+    if v[0].startswith("PROP:"):
+        chk.violation(v[0][5:], f"{v[0]} process {v[1]} segment {v[2]}", {"meta": m, "trace": tr})
+    elif v[0] != "ACCEPT":
+        chk.note_drift(f"replay: {v}")
+    chk.sample({"trace": tr})
     return chk.finish()
